@@ -9,7 +9,7 @@ from . import sut, wire
 BEHAVIOURS = ["always", "never", "stop2", "late-within", "late-beyond", "wrong-token", "unsolicited",
               "chatty-silent", "late-long", "never", "always", "slow-register", "slow-register-silent", "cap-renegotiate", "late-once-silent", "cap-open-silent", "cap-open-answering",
               "fragment-silent", "split-answers", "fragment-silent", "surplus-then-silent", "double-then-silent",
-              "surplus-then-silent", "busy-at-deadline", "busy-at-deadline"]
+              "surplus-then-silent", "busy-at-deadline", "busy-at-deadline", "blank-before-answers"]
 
 
 class Lag(threading.Thread):
@@ -87,7 +87,8 @@ class Peer:
             tok = m.params[-1] if m.params else ""
             b = self.b
             answer = None
-            if b in ("always", "unsolicited", "slow-register", "cap-renegotiate", "cap-open-answering", "split-answers"):
+            if b in ("always", "unsolicited", "slow-register", "cap-renegotiate", "cap-open-answering", "split-answers",
+                     "blank-before-answers"):
                 answer = (now, tok)
             elif b == "wrong-token":
                 answer = (now, "not-the-token")
@@ -164,6 +165,11 @@ class Peer:
         due = [a for a in self.pending_answers if a[0] <= now]
         for a in due:
             self.pending_answers.remove(a)
+            if self.b == "blank-before-answers":
+                # an empty line (ignored) and the answer in one write: the answer counts as soon as it is there
+                self.c.send_raw(("\r\n" * (1 + self.answered % 3) + "PONG :%s\r\n" % a[1]).encode())
+                self.answered += 1
+                continue
             if self.b == "split-answers":
                 # the answer arrives in two pieces a moment apart: still one PONG, in time
                 line = ("PONG :%s\r\n" % a[1]).encode()
@@ -187,7 +193,9 @@ class Peer:
             else:
                 tok = "%s-%d" % (self.nick, self.n)
             self.own_tokens[tok] = now
-            if self.n % 4 == 1 and tok and not any(ch.isspace() for ch in tok) and not tok.startswith(":"):
+            if self.b == "blank-before-answers":
+                self.c.send_raw(("\r\nPING :%s\r\n" % tok).encode())
+            elif self.n % 4 == 1 and tok and not any(ch.isspace() for ch in tok) and not tok.startswith(":"):
                 # the token is the first parameter; a second one (a server name, some words) does not replace it
                 self.c.send("PING %s %s" % (tok, ["irc.verif.test", ":some more words", "x y"][self.n % 3]))
             else:
@@ -248,7 +256,7 @@ def run_config(args):
                 out["peers"].append(rec)
                 tag = "P%d-Q%d" % (P, Q)
                 responsive = p.b in ("always", "late-within", "late-long", "wrong-token", "unsolicited", "slow-register",
-                                     "cap-renegotiate", "cap-open-answering", "split-answers")
+                                     "cap-renegotiate", "cap-open-answering", "split-answers", "blank-before-answers")
                 if not p.registered:
                     # the statement is about registered clients only: nothing to judge
                     out["inconclusive"] = "slow registrant %s never got its welcome (closed: %s, %s)" % (
